@@ -150,7 +150,7 @@ key()
 
 struct Op
 {
-    char kind; // 'w' map, 'c' commit, 'a' abort, 'r' rmap, 'u' runmap, 't' toggle
+    char kind; // 'w' map, 'c' commit, 'a' abort, 'x' abort then unmap (source.c's idiom for an empty frame), 'r' rmap, 'u' runmap, 't' toggle
     int x, r;
 };
 
@@ -164,6 +164,7 @@ alphabet(std::vector<Op>& ops)
     } else {
         ops.push_back({ 'c', 0, 0 });
         ops.push_back({ 'a', 0, 0 });
+        ops.push_back({ 'x', 0, 0 });
     }
     for (int r = 0; r < NR; r++) {
         if (g.hoff[r] >= 0) {
@@ -240,6 +241,12 @@ exec_op(const Op& op)
             channel_abort_write(&ch);
             g.poff = -1; g.pn = 0;
             return "{\"e\":\"WAbort\"}";
+        }
+        case 'x': { // what the source thread does with a frame that came back empty: abort the write, then unmap anyway
+            channel_abort_write(&ch);
+            g.poff = -1; g.pn = 0;
+            channel_write_unmap(&ch);
+            return "{\"e\":\"WAbort\"}\n{\"e\":\"WCommit\"}";
         }
         case 't': {
             g.acc = !g.acc;
@@ -461,6 +468,7 @@ random_programs(int argc, char** argv)
                     case 'w': wt = wbias * 2; break;
                     case 'c': wt = wbias * 6; break;
                     case 'a': wt = 1; break;
+                    case 'x': wt = 2; break;
                     case 'r': wt = rbias * 2; break;
                     case 'u': wt = (ops[i].x >= g.hlen[ops[i].r]) ? rbias * 3 : rbias; break;
                     case 't': wt = 1; break;
@@ -579,7 +587,7 @@ script(int argc, char** argv)
         else if (k == 'r') op.r = a - 1;
         else if (k == 'u') { op.r = a - 1; op.x = b; }
         if (op.r < 0 || op.r >= MAXR) continue;
-        if ((k == 'c' || k == 'a') && g.poff < 0) continue;
+        if ((k == 'c' || k == 'a' || k == 'x') && g.poff < 0) continue;
         if (k == 'w' && g.poff >= 0) continue;
         std::string e = exec_op(op);
         fprintf(out, "%s\n", e.c_str());
